@@ -9,7 +9,7 @@ truthiness, equality, re-serialisation, 45 scripts with the value bound to a var
 import json
 import re
 
-from lib.common import Run, hx
+from lib.common import go_child,  Run, hx
 
 NAMES = ["ceil", "floor", "abs", "toStr", "load", "store", "dir", "nosuch", "", "Array.kh", "Ceil"]
 KEYS = ["a", "b", "力", "k", "__proto__", "A"]
@@ -210,6 +210,18 @@ def main(tier):
             run.nontriv(("recur", J(m)))
             if g.startswith("died") or "panic" in g:
                 run.violation("booby-trapped-value:restored-values-recurse-without-bound", {"variables": J(m), "scripts": scripts, "implementation": g[:400]})
+        # the same families when the host keeps the variables as JSON and decodes them afresh on EVERY load (each recursion level
+        # then meets a value that was never compiled): the budget still ends the run
+        gl = []
+        for m, scripts in RECUR:
+            for sc in scripts[:2]:
+                gl.append((m, sc, f"custom -,L30000 {1:032x} gjson:{hx(J(m))} {hx(sc)}"))
+        gout = go_child(line_timeout=60).run([x[2] for x in gl])
+        for (m, sc, _), o in zip(gl, gout):
+            run.evaluations += 1
+            run.nontriv(("recur-g", J(m), sc))
+            if o.startswith("died") or o.startswith("panic"):
+                run.violation("booby-trapped-value:restored-values-recurse-without-bound", {"host_globals_decoded_on_every_load": J(m), "script": sc, "implementation": o[:400]})
         # stored functions / computed values whose body no longer parses, every cut, every arity the battery calls with
         import json as _json
         for body in BROKEN_BODY:
